@@ -334,6 +334,10 @@ def stage_delete_sweep(ctx: Ctx):
                                'src_after': after[0], 'source_equal': after[0] == before[0], 'dump_equal': after[1] == before[1]})
 
 
+FALSY_PROGS = ['raise X from Y\n', 'def f():\n    return z\n    yield w\n', 'x: int = 1\n', 'assert a, "m"\n', 'for i in j:\n    pass\nelse:\n    k\n', 'with a as b: pass\n', 'f(a, *b, k=c, **d)\n',
+               'try:\n    pass\nexcept E as e:\n    pass\n', 'lambda a=1, *b, c=2: a\n', 'x = a if b else c\n', 'y = a[b:c:d]\n', 'match m:\n    case C(p, q=r) if g: pass\n', 'del a, b\n',
+               'class K(B, metaclass=M): pass\n', 'async def g(a: int = 1) -> r: await h\n', 'x = {k: v, **w}\n', 'import a as b\n', 'global g1, g2\n', 'sum(x for x in y)\n', 'print(*(i for i in j))\n']
+CALL_PROGS = ['sum(x for x in y)\n', 'f(a, k=1)\n', 'f(k=1, *a)\n', 'f(**d)\n', 'g((x for x in y), z)\n', 'class K(B, k=1): pass\n', 'h(\n    (i for i in j)\n)\n', 'print(i for i in j if i)\n']
 OPT_PROGS = ['if x: a = 1\n', 'if a:\n    pass\nelif b:\n    pass\n', 'def f(): pass\n', 'class C: x = 1\n', 'while q: break\nelse: pass\n', 'try: pass\nfinally: pass\n',
              'a = [1, 2]\nb = f(3, k=4)\n', 'for i in j: pass\nelse: pass\n', 'if a: pass\nelif b: pass\nelse: pass\n', 'with a: b; c\n', 'x = 1; y = 2\n',
              'match v:\n    case 1: pass\n', 'try: pass\nexcept E: pass\nelse: pass\n']
@@ -401,6 +405,68 @@ def stage_option_sweep(ctx: Ctx):
                                   {**desc, 'error': repr(err)[:200], 'src_after': after[0], 'dump_equal': after[1] == before[1]})
 
 
+def stage_falsy_and_order_sweep(ctx: Ctx):
+    """deterministic: (a) every single-node field and every element of every list field of a set of statements put with FALSY code that is not None ('' / [] / () / 0-length
+    source): where that is refused nothing may have changed (deleting a neighbouring field first and then failing is the classic half-applied edit); (b) every insertion
+    point of the merged arguments of calls / class bases with code the ordering rules reject (a positional behind keywords, '**' in front, keywords into args...), incl. calls
+    whose only argument is a generator expression sharing the call parentheses (normalising those before validating is a change that survives the refusal)."""
+    import fst
+    from fst.fst_core import _MODIFYING
+
+    def attempt(src, path, thunk_maker, desc):
+        root = fst.FST(src, 'exec')
+        f = root.child_from_path(path)
+        before = snapshot(root)
+        try:
+            thunk_maker(f)()
+            return
+        except Exception as e:
+            err = e
+        ctx.tick(('falsy-order', src, str(path), json.dumps(desc, default=repr)), 'fault:sweep:' + desc['how'])
+        if _MODIFYING:
+            ctx.violation(f'lock|sweep-{desc["how"]}|exc', 'modification registry not empty after the call raised', {'src': src, **desc, 'error': repr(err)[:200]})
+            _MODIFYING.clear()
+        after = snapshot(root)
+        if after != before:
+            what = 'source changed' if after[0] != before[0] else 'tree positions/structure changed'
+            ctx.violation(f'mutated|sweep-{desc["how"]}|{type(err).__name__}|{what}', 'a raising edit did not leave the tree exactly as it was',
+                          {'src': src, **desc, 'error': repr(err)[:200], 'src_after': after[0], 'dump_equal': after[1] == before[1]})
+    for src in FALSY_PROGS:
+        probe = fst.FST(src, 'exec')
+        for f in probe.walk(True):
+            path = probe.child_path(f)
+            for fld in f.a._fields:
+                v = getattr(f.a, fld, None)
+                if isinstance(v, (ast.expr_context, ast.operator, ast.unaryop, ast.cmpop, ast.boolop)) or fld in ('ctx', 'type_comment', 'kind'):
+                    continue
+                for code in ('', [], (), '  ', '\n'):
+                    if isinstance(v, list):
+                        for i in range(len(v) + 1):
+                            attempt(src, path, lambda g, fld=fld, i=i, code=code: (lambda: g.put(code, i, fld)), {'how': 'falsy-put', 'field': fld, 'idx': i, 'code': repr(code)})
+                            attempt(src, path, lambda g, fld=fld, i=i, code=code: (lambda: g.put_slice(code, i, i + 1, fld)), {'how': 'falsy-put-slice', 'field': fld, 'idx': i, 'code': repr(code)})
+                    else:
+                        attempt(src, path, lambda g, fld=fld, code=code: (lambda: g.put(code, fld)), {'how': 'falsy-put', 'field': fld, 'code': repr(code)})
+                        if isinstance(v, ast.AST) and getattr(v, 'f', None) is not None:
+                            attempt(src, path, lambda g, fld=fld, code=code: (lambda: getattr(g, fld).replace(code)), {'how': 'falsy-replace', 'field': fld, 'code': repr(code)})
+    for src in CALL_PROGS:
+        probe = fst.FST(src, 'exec')
+        for f in probe.walk(True):
+            if not isinstance(f.a, (ast.Call, ast.ClassDef)):
+                continue
+            path = probe.child_path(f)
+            virt = '_args' if isinstance(f.a, ast.Call) else '_bases'
+            real = 'args' if isinstance(f.a, ast.Call) else 'bases'
+            n = len(getattr(f, virt))
+            for code in ('**kw', 'k=1', '*st', 'p', 'p, k=2', 'k=1, p', '**a, b', 'x for x in y', '1 +'):
+                for i in list(range(n + 1)) + ['end']:
+                    for fld in (virt, real, 'keywords'):
+                        attempt(src, path, lambda g, fld=fld, i=i, code=code: (lambda: g.put_slice(code, i, i, fld)), {'how': 'order-insert', 'field': fld, 'idx': i, 'code': code})
+                for fld in (virt, real, 'keywords'):
+                    attempt(src, path, lambda g, fld=fld, code=code: (lambda: g.insert(code, 0, fld)), {'how': 'order-insert0', 'field': fld, 'code': code})
+                    attempt(src, path, lambda g, fld=fld, code=code: (lambda: getattr(g, fld).prepend(code)), {'how': 'order-prepend', 'field': fld, 'code': code})
+                    attempt(src, path, lambda g, fld=fld, code=code: (lambda: getattr(g, fld).append(code)), {'how': 'order-append', 'field': fld, 'code': code})
+
+
 def run(ctx: Ctx):
     ctx.rule = ('fault sequences: histories mixing invalid requests (15 fault kinds: unparsable code, wrong category with coerce=False, index/slice out of '
                 'range, bad/unknown options, consumed or non-root FST as code, to= without raw, deletion of required fields, ordering violations) and '
@@ -416,6 +482,7 @@ def run(ctx: Ctx):
     run_guarded(ctx, stage_faults, progs)
     run_guarded(ctx, stage_delete_sweep)
     run_guarded(ctx, stage_option_sweep)
+    run_guarded(ctx, stage_falsy_and_order_sweep)
 
 
 def replay(path):
